@@ -27,7 +27,7 @@ type c04Case struct {
 }
 
 var c04Profiles = []gen.Profile{gen.PInt, gen.PInt, gen.PFloat, gen.PBool, gen.PLowStr, gen.PLowStr, gen.PLowStr, gen.PHighStr, gen.PNumText,
-	gen.PMixNumStr, gen.PMixIntFloat, gen.PMixIntFloat, gen.PWidth6Str, gen.PNullOnly, gen.PIntThenFloat, gen.PFloatThenInt}
+	gen.PMixNumStr, gen.PMixIntFloat, gen.PMixIntFloat, gen.PWidth6Str, gen.PNullOnly, gen.PIntThenFloat, gen.PFloatThenInt, gen.PUInt, gen.PUInt}
 
 func genC04(t *rapid.T) *c04Case {
 	ds := gen.GenDataset(t, gen.DatasetOpts{MaxEvents: pt.Scale(50, 200), MaxCols: 5, Profiles: c04Profiles, NullPct: 3, NoNested: false})
